@@ -96,6 +96,8 @@ def rows_case(draw):
     # rows handed to the constructor may be lists or dicts, mixed
     init_dict = [draw(st.integers(0, 2)) == 0 for _ in init]
     return {"kind": "rows", "names": names, "types": types, "array": array, "lazy": lazy, "init": init,
+            # string columns of an array collector declared as in the documentation (dtype=str) or with a width
+            "sdtype": draw(st.sampled_from(["U16", "str"])),
             "ops": [list(o) for o in ops], "init_dict": init_dict}
 
 
@@ -314,7 +316,8 @@ def _norm(x):
 def check_rows(case, v):
     from scinumtools import RowCollector
     names, types, array = case["names"], case["types"], case["array"]
-    dt = {"i": dict(dtype=np.int64), "f": dict(dtype=float), "s": dict(dtype="U16"), "u": dict(dtype=np.uint32),
+    dt = {"i": dict(dtype=np.int64), "f": dict(dtype=float),
+          "s": dict(dtype=str) if case.get("sdtype") == "str" else dict(dtype="U16"), "u": dict(dtype=np.uint32),
           "b": dict(dtype=bool)}
     rows0 = [({n: r[j] for j, n in reversed(list(enumerate(names)))} if d else list(r))
              for r, d in zip(case["init"], case.get("init_dict") or [False] * len(case["init"]))]
